@@ -31,6 +31,8 @@ import traceback
 VERIF = os.path.dirname(os.path.dirname(os.path.dirname(os.path.abspath(__file__))))
 REPO = os.environ.get('VERIF_REPO', '/repo')
 NSHARDS = 16
+EVIDENCE = os.environ.get('VERIF_EVIDENCE_DIR') or os.path.join(VERIF, 'evidence')
+REPLAYS = os.environ.get('VERIF_REPLAY_DIR') or os.path.join(VERIF, 'replays')
 STEP_BUDGET = 2_000_000
 WATCHDOG_S = 120
 
@@ -532,7 +534,7 @@ def minimise(mod, ctx, v, limit=150):
 
 def do_run(mod, modname, tier, seed, b, scratch, t0):
     import glob
-    for old in glob.glob(os.path.join(VERIF, 'replays', '%s-%d-*.json' % (mod.ID, seed))):
+    for old in glob.glob(os.path.join(REPLAYS, '%s-%d-*.json' % (mod.ID, seed))):
         os.unlink(old)
     sizes = mod.SIZES[tier]
     ncases = sizes if isinstance(sizes, int) else sizes['cases']
@@ -579,9 +581,9 @@ def do_run(mod, modname, tier, seed, b, scratch, t0):
                 continue
             seen_msgs.add(key)
             new.append(v2)
-        os.makedirs(os.path.join(VERIF, 'replays'), exist_ok=True)
+        os.makedirs(REPLAYS, exist_ok=True)
         for n, v in enumerate(new):
-            path = os.path.join(VERIF, 'replays', '%s-%d-%d.json' % (mod.ID, seed, n))
+            path = os.path.join(REPLAYS, '%s-%d-%d.json' % (mod.ID, seed, n))
             json.dump({'property': mod.ID, 'seed': seed, 'tier': tier, 'monitor': v['monitor'], 'msg': v['msg'],
                        'detail': v['detail'], 'case': v['case']}, open(path, 'w'), indent=1, default=str)
             lines.append('VIOLATION property=%s replay=%s' % (mod.ID, path))
@@ -635,8 +637,8 @@ def do_run(mod, modname, tier, seed, b, scratch, t0):
     }
     if hasattr(mod, 'extra_coverage'):
         ev['coverage'].update(mod.extra_coverage(m))
-    os.makedirs(os.path.join(VERIF, 'evidence'), exist_ok=True)
-    json.dump(ev, open(os.path.join(VERIF, 'evidence', mod.ID + '.json'), 'w'), indent=1, default=str)
+    os.makedirs(EVIDENCE, exist_ok=True)
+    json.dump(ev, open(os.path.join(EVIDENCE, mod.ID + '.json'), 'w'), indent=1, default=str)
 
     print('%s tier=%s seed=%d cases=%d distinct=%d nontrivial=%d executions=%d verdicts=%s max_steps=%d wall=%.1fs' % (
         mod.ID, tier, seed, m['cases'], len(m['hashes']), nontriv, m['execs'], m['verdicts'], m['max_steps'], wall))
